@@ -80,8 +80,20 @@ def l5(ctx: Ctx):
     tagged = [c for c in subs if (unparse(c.func.value) == "re" and c.args and unparse(c.args[0]) == "STR_STORAGE_TAG") or unparse(c.func.value) == "STR_STORAGE_TAG"]
     oks = len(subs) == 1 and len(tagged) == 1
     ctx.idiom("result:one-substitution", bool(subs), oks, "" if oks else "the string-size placeholder is not substituted by exactly one substitution of STR_STORAGE_TAG", file=PROCBANK_REL, line=get.lineno)
+    # ... and it replaces every occurrence: no `count` (4th positional argument of re.sub, 3rd of pattern.sub)
+    for c in tagged:
+        via_re = unparse(c.func.value) == "re"
+        cnt = next((k.value for k in c.keywords if k.arg == "count"), None)
+        pos = c.args[3] if via_re and len(c.args) > 3 else (c.args[2] if not via_re and len(c.args) > 2 else None)
+        lim = cnt if cnt is not None else pos
+        okc = lim is None or (isinstance(lim, ast.Constant) and lim.value == 0)
+        ctx.ob("result:substitutes-all", okc, "" if okc else f"the placeholder substitution is limited by `{unparse(lim)}` (the argument after the text is `count`, not flags): only the first placeholders of the bundle are replaced, the rest stay `STRING<<>>`", file=PROCBANK_REL, line=c.lineno)
     cmps = [c for c in walk_scope if isinstance(c, ast.Compare) and len(c.ops) == 1 and {unparse(c.left), unparse(c.comparators[0])} == {"self._default_str_storage", "b09.DEFAULT_STR_STORAGE"}]
     consts = [c.value for c in walk_scope if isinstance(c, ast.Constant) and isinstance(c.value, str)]
+    # module-level named string constants used in the scope count with their value
+    mod_assigns = py.mod(PROCBANK_REL).assigns
+    named_consts = {n.id: mod_assigns[n.id].value for n in walk_scope if isinstance(n, ast.Name) and isinstance(mod_assigns.get(n.id), ast.Constant) and isinstance(mod_assigns[n.id].value, str)}
+    consts += list(named_consts.values())
     has_plain = any(x.strip() == ": STRING" for x in consts) or any(x.startswith(": STRING") for x in consts)
     has_sized = any(isinstance(c, ast.JoinedStr) and "[" in "".join(str(v.value) for v in c.values if isinstance(v, ast.Constant)) and any(isinstance(v, ast.FormattedValue) and unparse(v.value) == "self._default_str_storage" for v in c.values) for c in walk_scope)
     okt = len(cmps) == 1 and isinstance(cmps[0].ops[0], (ast.Eq, ast.NotEq)) and has_plain and has_sized
